@@ -1429,8 +1429,12 @@ func (x *Exec) checkLoopInv(st *State, fr *Frame, l *Loop, phase string) {
 			}
 			continue
 		}
-		g := x.evalBool(env, cl.Expr)
+		g, missing := x.evalTolerant(env, cl.Expr)
 		x.oblige(st, fmt.Sprintf("loop%d/%s", l.Ordinal, phase), label, cl.Props, g, cl.Where, cl.Src)
+		if len(missing) > 0 {
+			// the part of the invariant that can no longer be stated is an undecided obligation of its own
+			x.oblige(st, fmt.Sprintf("unstatable@loop%d/%s", l.Ordinal, phase), label, cl.Props, "false", cl.Where, strings.Join(missing, "; ")+": this part of the invariant is neither assumed nor proved")
+		}
 	}
 }
 
@@ -1531,12 +1535,47 @@ func (x *Exec) checkLoopVariant(st *State, fr *Frame, l *Loop) {
 	}
 }
 
+// conjuncts splits a && b && c at the top level.
+func conjuncts(e CExpr) []CExpr {
+	if b, ok := e.(*CBin); ok && b.Op == "&&" {
+		return append(conjuncts(b.X), conjuncts(b.Y)...)
+	}
+	return []CExpr{e}
+}
+
+// evalTolerant evaluates a loop invariant conjunct by conjunct. A conjunct that names an identifier
+// which no longer exists in the function (a removed or renamed local that the rename table cannot
+// place) is left out of the result and its name returned: the caller neither assumes nor proves it,
+// and reports it, instead of giving up on the whole function.
+func (x *Exec) evalTolerant(env *Env, e CExpr) (goal string, missing []string) {
+	goal = "true"
+	for _, c := range conjuncts(e) {
+		var g string
+		func() {
+			defer func() {
+				if r := recover(); r != nil {
+					if tl, ok := r.(toolLimit); ok && strings.HasPrefix(tl.msg, "unknown identifier") {
+						missing = append(missing, tl.msg)
+						g = "true"
+						return
+					}
+					panic(r)
+				}
+			}()
+			g = x.evalBool(env, c)
+		}()
+		goal = and(goal, g)
+	}
+	return goal, missing
+}
+
 func (x *Exec) assumeLoopInv(st *State, fr *Frame, l *Loop) {
 	x.loopFrame(st, fr, l, true, "")
 	env := x.envFor(st, x.entry, fr)
 	env.prev = x.outerHead(st, fr, l)
 	for _, cl := range x.loopClauses(fr, l) {
-		st.assume(x.evalBool(env, cl.Expr))
+		g, _ := x.evalTolerant(env, cl.Expr)
+		st.assume(g)
 	}
 	// local slices whose offset the invariant fixes to 0: use the literal, so that
 	// index terms stay free of symbolic offsets
